@@ -617,7 +617,7 @@ def run_C12(ctx):
     ctx.tlc_phase("json-asan", "JsonIO", dict(TokAlphabet=JSON_TOKENS, MaxToks=str(4 if q else 5), EmitOn="TRUE"),
                   invariants=["NoPartial"], sample_cases=(30000 if q else 400000), **kw)
     ctx.chain_phase("chains-code-to-spec", (4000 if ctx.quick() else 60000), 6, kinds=("crash", "exception"))
-    ctx.pychain_phase("python-chains-code-to-spec", (4000 if ctx.quick() else 60000), 6, kinds=("crash", "exception"))
+    ctx.pychain_phase("python-chains-code-to-spec", (4000 if ctx.quick() else 60000), 6, kinds=("crash", "exception", "purity"))
     return ctx.finish(rule="case = one operation on one layout (or one history / command sequence / text) executed in a worker process built "
                            "with -fsanitize=address,undefined; non-trivial = reaches the library (every case does); verdict on exit "
                            "status, sanitizer report, timeout, exception class, operand digests, and results re-read after drops",
@@ -650,7 +650,7 @@ def run_C04(ctx):
     consts = session_consts(OpSet='{"ufunc"}', LeafSet='{Numpy("int64", <<1, 2, 3, 4>>)}', MaxDepth="1", MaxLen="4", Classes='{"List"}')
     ctx.l2_phase("ufunc-listarray-orderings", "Session", consts, ("l2replay", "h_c04"), invariants=["Closed"],
                  require_actions=["UfuncOp", "WrapList"], sample_cases=(25000 if q else 250000), timeout=1200)
-    ctx.pychain_phase("python-chains-code-to-spec", (4000 if ctx.quick() else 60000), 5, ops={"ufunc", "filter"})
+    ctx.pychain_phase("python-chains-code-to-spec", (4000 if ctx.quick() else 60000), 5, ops={"ufunc", "addmasked", "filter"})
     return ctx.finish(rule="case = (one or two layouts, scalar, ufunc/operator/broadcast_arrays form); executed through numpy ufuncs / Python "
                            "operators / ak.broadcast_arrays of /repo's Python layer; rectilinear pairs are additionally compared with NumPy itself",
                       assumptions=[L2_TRUSTED, "unions and records under ufuncs are outside this model (Unspec / must raise)",
